@@ -952,7 +952,8 @@ class Interferogram(RichData):
         p = RichData(psd_, 0, self.wavelength)
         p.x = ux
         p.y = uy
-        p.dx = ux[1] - ux[0]
+        # ux is a 2D grid whose rows are identical: the frequency step is between neighbouring columns
+        p.dx = float(ux[0, 1] - ux[0, 0]) if ux.shape[1] > 1 else 0.
         p._default_twosided = False
         return p
 
